@@ -276,6 +276,12 @@ def check(pid, tier, seed):
                     lines.append('  partition=%s args=%s observed=%s'
                                  % (p.name, json.dumps(cex['args'])[:300], rr.get('observed')))
                     violations += 1
+                elif rr and rr.get('ok') is True and cex.get('suspect'):
+                    # the symbolic run flagged a suspicion (e.g. a write to module state) that the concrete
+                    # amplification on the real code found to be unobservable
+                    inconclusive.append(p.name)
+                    lines.append('NOTE harness=%s suspicion not confirmed by the concrete run (no observable '
+                                 'difference): args=%s' % (p.name, json.dumps(cex['args'])[:200]))
                 else:
                     harness_errors.append(
                         'counterexample of %s does not reproduce on the real code (model or harness '
